@@ -456,8 +456,8 @@ def scan_case(draw):
     "C19",
     "scans",
     scan_case,
-    quick=500,
-    thorough=12000,
+    quick=800,
+    thorough=20000,
     tol="exact for CustomScan positions and all slices; ulp32(16) for Line/GridScan positions (sub-scans rebuilt from start+k*sampling)",
     rule=">=2 blocks along some ensemble axis",
     nontrivial_floor=0.3,
@@ -588,8 +588,8 @@ def transform_case(draw):
     "C19",
     "transforms",
     transform_case,
-    quick=500,
-    thorough=12000,
+    quick=2500,
+    thorough=40000,
     tol="exact (values, weights, dtype, scalar parameters, axis values)",
     rule=">=2 blocks along some ensemble axis",
     nontrivial_floor=0.2,
@@ -615,8 +615,8 @@ def divide_case(draw):
     "C19",
     "divide",
     divide_case,
-    quick=800,
-    thorough=16000,
+    quick=4000,
+    thorough=60000,
     tol="exact",
     rule=">=2 blocks",
     nontrivial_floor=0.3,
@@ -712,8 +712,8 @@ def make_phonons(case):
     "C19",
     "phonons",
     phonon_case,
-    quick=400,
-    thorough=8000,
+    quick=2000,
+    thorough=24000,
     tol="exact (seeds, sigmas, directions, atoms; trajectory positions)",
     rule=">=2 blocks along the configuration axis",
     nontrivial_floor=0.25,
@@ -798,8 +798,8 @@ def make_array_object(case):
     "C19",
     "arrays",
     array_case,
-    quick=500,
-    thorough=10000,
+    quick=2000,
+    thorough=30000,
     tol="exact (array bits, axis values, metadata); LinearAxis offsets not asserted",
     rule=">=2 blocks along some ensemble axis",
     nontrivial_floor=0.25,
@@ -870,8 +870,8 @@ def make_builder(case):
     "C19",
     "builders",
     builder_case,
-    quick=300,
-    thorough=6000,
+    quick=800,
+    thorough=12000,
     tol="exact (distribution values/weights, scalar parameters, CustomScan positions); ulp32(16) for Line/GridScan positions",
     rule=">=2 blocks along some ensemble axis",
     nontrivial_floor=0.3,
